@@ -134,6 +134,13 @@ theorem ctfTRu_sound_fun (target : MG Name) (ds : List Domain) (e ev : Event) (x
     ∀ τ, (∀ x, τ x < F.card x) → den (F.env graphs) σ' x τ = probEventOpt F.target (nuOf τ) (fillEvent ev) :=
   ctfTRu_value_fun target ds e ev x h hwf hdecl hplain hrefl hvalev hclass F graphs hF σ'
 
+/-- **"the returned event's values" exist** exactly when the decidable test `readingExists` says so (no name receives
+two different value symbols, as event value or subscript): then for every reading `ν` of the value symbols some valuation
+`σ` satisfies the hypothesis `EventReading ν σ q` of the value theorems -/
+theorem ctf_reading_exists (q : Event) (hval : ∀ p ∈ q, ∀ i, p.2 = some i → i.name = p.1.name)
+    (h : readingExists q = true) (ν : BaseValues) : ∃ σ, EventReading ν σ q :=
+  eventReading_exists q hval h ν
+
 /-- **Normalisation step of Algorithm 3 (line 4) on top of the value clause of Algorithm 2.**  `Q` is the answer of
 Algorithm 2 for the derived event `D_*`, `A = V(D_*) ∖ (V(Y_*) ∪ V(X_*))` and `B = V(D_*) ∖ V(X_*)` the two summation
 ranges.  With `J τ = P*_τ(D_* = τ)` (`ctfTRu_sound_fun`), the returned fraction denotes `(Σ_A J) / (Σ_B J)`; it is the
